@@ -7,7 +7,7 @@ from c28_impl import LIST_OPS, DICT_OPS, PYNAME, plain_step, navigate
 
 ID = 'C28'
 LEVEL = 'proof'
-PROPS = ['Props/C28.v', 'Findings/C28.v']
+PROPS = ['Props/C28.v']
 GEN = [('Gen/Mutators.v', c28_scan.generate)]
 TRUSTED = [
     'tools/c28_scan.py: the mutator names of list / dict are derived from the running CPython (every name of dir() is called on samples), the wrapped '
@@ -740,8 +740,8 @@ LEVEL_TEXT = ('Machine-checked proof (Coq 8.16.1) over a model of Pony\'s tracke
               'Tracked* instance of the same owner, every mutator that returns sets the write bit, reads change nothing, and the row after commit equals the value the program '
               'sees -- unconditionally since fix f0ecc86 (+=, *=, |= and non-list iterables). The table of wrapped methods and the list of CPython mutators are regenerated from '
               'ormtypes.py and the running interpreter on every run; the coverage theorems are computed over them. Several owners (objects x Json attributes) with values stored from one into '
-              'another keep every container bound to exactly its own owner. Typed arrays (Int / Str / Float) validate items on every mutator (search). One deviation is recorded: a value '
-              'assigned through the Json wrapper is not tracked (proposed repair).')
+              'another keep every container bound to exactly its own owner. Typed arrays (Int / Str / Float) validate items on every mutator (search). A value '
+              'assigned through the Json wrapper is stored and tracked as the wrapped value (fix 50830fa; search).')
 LEVEL_NOTE = ('Trusted: Coq kernel + vm_compute; the ast scan of ormtypes.py; the hand-written model, tied to real Pony on SQLite by whole-trace vm_compute comparison '
               '(tracking tag of every container, write bit, stored text). Not modelled: floats / tuples, extended slices, sort(key=), handles to detached containers; '
               'other providers than SQLite.')
